@@ -52,6 +52,14 @@ class RX(Packet):
     z = Int(1)
 
 
+class CR(Packet):
+    __bisturi__ = dict(OPTS)
+    t = Bits(1)
+    q = Bits(7)
+    r = Ref(lambda pkt, **k: Int(2) if pkt.t else Sub(), default=0)
+    z = Int(1)
+
+
 def _local_classes():
     """classes defined inside a function cannot be pickled: their prototypes are cloned by deep copy (another code path)"""
     class LSub(Packet):
@@ -108,6 +116,8 @@ def observe(q):
         fields = (q.h, q.n, q.p, obs_sub(q.r), list(q.s), q.d, q.o)
     elif isinstance(q, B):
         fields = (obs_sub(q.r), list(q.lst), q.k, q.j)
+    elif isinstance(q, CR):
+        fields = (q.t, q.q, obs_sub(q.r) if isinstance(q.r, Packet) else q.r, q.z)
     else:
         fields = (q.a, q.d, q.z)
     try:
@@ -134,7 +144,7 @@ def _collect(f, seen):
 
 
 def _arm():
-    for cls in (Sub, A, B, RX):
+    for cls in (Sub, A, B, RX, CR):
         for _, f, _, _ in cls.get_fields():
             _collect(f, KNOWN_FIELDS)
 
@@ -169,7 +179,7 @@ def monitor_unpack_pack(ra: bytes, rb: bytes, rx: bytes) -> str:
     del WRITES[:]
     ARMED[0] = True
     try:
-        for cls, raw in ((A, ra), (B, rb), (RX, rx)):
+        for cls, raw in ((A, ra), (B, rb), (RX, rx), (CR, rx)):
             p = cls.unpack(raw, silent=True)
             if p is not None:
                 try:
@@ -209,6 +219,12 @@ def _do(op, cls, raw, v, b, other):
         elif isinstance(other, B):
             other.k = v
             other.r.y = v
+        elif isinstance(other, CR):
+            other.q = v
+            if isinstance(other.r, Packet):
+                other.r.x = v
+            else:
+                other.r = v
         else:
             other.a = v
     elif op == "setdata":
@@ -231,10 +247,10 @@ def _do(op, cls, raw, v, b, other):
 
 def _mk(ix):
     bcls_name, ocls_name, parsed, hist = OPS[ix]
-    bcls = {"A": A, "B": B, "RX": RX}[bcls_name]
-    ocls = {"A": A, "B": B, "RX": RX}[ocls_name]
-    lb = {"A": %(la)d, "B": 5, "RX": 4}[bcls_name]
-    lo = {"A": %(la)d, "B": 5, "RX": 4}[ocls_name]
+    bcls = {"A": A, "B": B, "RX": RX, "CR": CR}[bcls_name]
+    ocls = {"A": A, "B": B, "RX": RX, "CR": CR}[ocls_name]
+    lb = {"A": %(la)d, "B": 5, "RX": 4, "CR": 4}[bcls_name]
+    lo = {"A": %(la)d, "B": 5, "RX": 4, "CR": 4}[ocls_name]
 
     def h(rq: bytes, rp: bytes, v: int, b: bytes) -> str:
         reset_shared_state()
@@ -262,7 +278,7 @@ def _mk(ix):
         # aliasing of mutable sub-objects
         if other is not None and type(other) is type(q):
             for name in ("r", "s", "lst"):
-                if hasattr(q, name) and getattr(q, name) is not None and getattr(q, name) is getattr(other, name, None):
+                if hasattr(q, name) and isinstance(getattr(q, name), (list, Packet)) and getattr(q, name) is getattr(other, name, None):
                     return "FAIL sig=C13|mutable-sub-object-shared|%%s.%%s" %% (bcls_name, name)
         return "ok:unchanged"
     return h
@@ -278,7 +294,7 @@ def purity(ra: bytes, rb: bytes, rx: bytes) -> str:
     rb = fix(rb, 5)
     rx = fix(rx, 4)
     seen = False
-    for cls, raw in ((A, ra), (B, rb), (RX, rx)):
+    for cls, raw in ((A, ra), (B, rb), (RX, rx), (CR, rx)):
         for p in (cls.unpack(raw, silent=True), cls()):
             if p is None:
                 continue
@@ -305,7 +321,7 @@ def build(tier, seed):
     obs = []
     for gen, opts in (("generic", "'generate_for_pack': False, 'generate_for_unpack': False"), ("generated", "")):
         combos = []
-        for bcls, ocls in (("A", "A"), ("B", "B"), ("A", "B"), ("B", "A"), ("RX", "RX"), ("A", "RX")):
+        for bcls, ocls in (("A", "A"), ("B", "B"), ("A", "B"), ("B", "A"), ("RX", "RX"), ("A", "RX"), ("CR", "CR"), ("CR", "A")):
             for parsed in (True, False):
                 for hist in itertools.product(kinds, repeat=n):
                     if "unpack" not in hist and "construct" not in hist and hist[0] not in ("setint", "setdata", "append"):
@@ -328,11 +344,12 @@ def build(tier, seed):
                             "fn": ["f%d" % i for i in range(len(chunk))], "required_tags": ["unchanged"], "collect_all": True,
                             "timeout": 240,
                             "bound": "bystander %s (%s from %d symbolic bytes), histories of %d operations on another %s packet: %s; inputs and "
-                                     "assigned values symbolic" % (bcls, "parsed" if parsed else "default", {"A": la, "B": 5, "RX": 4}[bcls], n, ocls,
+                                     "assigned values symbolic" % (bcls, "parsed" if parsed else "default", {"A": la, "B": 5, "RX": 4, "CR": 4}[bcls], n, ocls,
                                                                    ["-".join(c[3]) for c in chunk][:4]),
                             "assertion": "field values and pack() of the bystander are unchanged; no mutable sub-object is shared",
                             "decl_text": "A(h,n,p Bits; r Ref(Sub); s Int(1).repeated(n); d Data(until NUL); o Int(1).when(h==1)); "
-                                         "B(r Ref(Sub(x=1,y=2)); lst repeated(2, default=[7,8]); Bits); RX(a; d Data(until re X+); z)"})
+                                         "B(r Ref(Sub(x=1,y=2)); lst repeated(2, default=[7,8]); Bits); RX(a; d Data(until re X+); z); "
+                                         "CR(t,q Bits; r Ref(lambda: Int(2) if t else Sub()); z)"})
         src = SRC % dict(opts=opts, ops=[], la=la)
         obs.append({"id": "C13/local-prototypes/%s" % gen, "module": "c13_local_%s" % gen, "source": src, "fn": "local_prototypes",
                     "required_tags": ["unchanged"], "timeout": 240,
